@@ -292,13 +292,13 @@ def cases(ctx):
         if ctx.mine(i):
             yield "exact", {"n": n, "x": "%X" % x, "legacy": (i % 4 == 0), "case": "lower" if i % 3 == 0 else "upper"}
         i += 1
-    nrand = ctx.share(40000 if quick else 600000)
+    nrand = ctx.share(150000 if quick else 600000)
     for k in range(nrand):
         n = rng.choice((56, 112))
         yield "exact", {"n": n, "x": "%X" % rng.getrandbits(n), "legacy": (k % 10 == 0),
                         "case": "lower" if k % 3 == 0 else "upper"}
     # --- closure / linearity
-    for k in range(ctx.share(6000 if quick else 80000)):
+    for k in range(ctx.share(20000 if quick else 80000)):
         n = rng.choice((56, 112))
         yield "closure", {"n": n, "data": "%X" % rng.getrandbits(n - 24),
                           "tails": [0, 0xFFFFFF, rng.getrandbits(24), rng.getrandbits(24)]}
@@ -339,7 +339,7 @@ def cases(ctx):
                     yield "detect", c
                 i += 1
     # --- random weight-5 real executions on 112 bits
-    for k in range(ctx.share(60 if quick else 1200)):
+    for k in range(ctx.share(200 if quick else 1200)):
         pats = []
         for _ in range(500 if quick else 3000):
             e = 0
@@ -355,7 +355,7 @@ def cases(ctx):
                     yield "syndrome5", {"pair": [a, b]}
                 i += 1
     # --- demodulator admission + contract on internal crc calls
-    for k in range(ctx.share(3000 if quick else 40000)):
+    for k in range(ctx.share(10000 if quick else 40000)):
         v = _valid(rng, 112, df=17)
         yield "checkmsg", {"frame": "%028X" % v}
         e = 0
